@@ -20,6 +20,7 @@ import (
 )
 
 func main() {
+	report.Supervise("C04", "exploration", "node-process-dies", "while the explored networks run (full-stack nodes keep background goroutines): a node in that situation is gone for good")
 	r := report.New("C04", "exploration")
 	b := 2
 	if r.Thorough() {
